@@ -115,6 +115,63 @@ func init() {
 		}
 		return "ok " + showPHs(hs)
 	})
+	// introspect-seq <filehex> -> ok | differs <what>
+	// the introspection calls have no side effects: on ONE footer object, footer text, PageHeaders and the per-chunk
+	// PageHeadersAtOffset listing give the same answers before and after each other, and twice in a row
+	register("introspect-seq", func(a []string) string {
+		src := &source{data: unhex(a[0])}
+		m, err := parquet.ReadMetaData(src)
+		if err != nil {
+			return "err"
+		}
+		f1 := showFMD(m)
+		perChunk := func() (string, error) {
+			var all []sch.PageHeader
+			for _, rg := range m.RowGroups {
+				for _, col := range rg.Columns {
+					if col.MetaData.TotalCompressedSize == 0 {
+						continue
+					}
+					hs, err := parquet.PageHeadersAtOffset(src, col.MetaData.DataPageOffset, col.MetaData.NumValues)
+					if err != nil {
+						return "", err
+					}
+					all = append(all, hs...)
+				}
+			}
+			return showPHs(all), nil
+		}
+		c0, err := perChunk()
+		if err != nil {
+			return "err"
+		}
+		h1, err := parquet.PageHeaders(m, src)
+		if err != nil {
+			return "err"
+		}
+		if f2 := showFMD(m); f2 != f1 {
+			return "differs footer-after-PageHeaders"
+		}
+		h2, err := parquet.PageHeaders(m, src)
+		if err != nil {
+			return "differs second-PageHeaders-errors"
+		}
+		if showPHs(h1) != showPHs(h2) {
+			return "differs second-PageHeaders"
+		}
+		c1, err := perChunk()
+		if err != nil || c1 != c0 {
+			return "differs per-chunk-listing-after-PageHeaders"
+		}
+		if c0 != showPHs(h1) {
+			return "differs per-chunk-listing-vs-PageHeaders"
+		}
+		m2, err := parquet.ReadMetaData(src)
+		if err != nil || showFMD(m2) != f1 {
+			return "differs second-ReadMetaData"
+		}
+		return "ok"
+	})
 	// pageheaders-at <filehex> <o> <n> -> ok <h,...> | err
 	register("pageheaders-at", func(a []string) string {
 		hs, err := parquet.PageHeadersAtOffset(&source{data: unhex(a[0])}, int64(atoi(a[1])), int64(atoi(a[2])))
